@@ -59,6 +59,7 @@ THEOREMS = [
     "Jinns.DerivKeys.gradient_entry",
     "Jinns.DerivKeys.gradient_setDerivatives",
     "Jinns.DerivKeys.gradient_total_entry",
+    "Jinns.DerivKeys.gradient_total_eq_vector_sum",
     "Jinns.DerivKeys.stopGrad_idem",
     "Jinns.DerivKeys.stopGrad_comm",
     "Jinns.DerivKeys.setDerivatives_eq_stopAll",
@@ -83,21 +84,28 @@ LEAN_MODULES = ["JinnsProofs.C06"]
 RULE = (
     "case = (loss kind, seeded polynomial problem, set of derivative specifications); loss terms x view positions "
     "(nn_params, each eq_params leaf): ODE 3x3 or 3x2, stationary 4x3, non-stationary 5x3, SystemLossODE 5x3 "
-    "(ParamsDict dynamic term + initial condition / observations of 2 unknowns), SystemLossPDE 7x3.  Boolean-tree "
-    "assignments: ALL 2^(terms x positions) for ODE (quick and thorough) and stationary (thorough); for "
-    "non-stationary and system losses (2^15 .. 2^21 assignments) a seeded random subset plus all-true, all-false, "
-    "every single-pair flip of both and every single-term selection -- EXHAUSTIVE is therefore false in the thorough "
-    "tier, and in the quick tier (PDE and system kinds sampled).  Plus, per case: every from_str combination of "
-    "{'nn_params','eq_params','both',omitted} per term (single losses), seeded mixed string/tree/omitted "
-    "specifications, the fully default construction (derivative_keys=None, params=...), unknown strings "
-    "(rejection), and user-path runs (python booleans; eager grad, jit closed over the loss).  Observed per "
-    "specification: booleans read back from the constructed object, value and jax.grad of the total and of every "
-    "returned term w.r.t. every group, as exact rationals.  Set-up: per-(term, group) gradients under the all-true "
-    "specification (systems: per-unknown terms isolated by indicator loss weights), compared with the exact "
-    "gradient obtained from the implementation's own term VALUES by a 7-node exact differentiation stencil "
-    "(terms are polynomials of degree <= 6 in each parameter) and, for the ODE loss, with the gradient of the "
-    "exact polynomial P.  non-trivial = every (term, group-of-its-view) all-true gradient is non-zero and the case "
-    "contains, for some pair, both a selecting and a non-selecting specification; distinct = distinct case dicts")
+    "(ParamsDict dynamic term + initial condition / observations of 2 unknowns), SystemLossPDE 7x3 (dynamic term + "
+    "normalisation / boundary / observations of 2 unknowns).  Boolean-tree assignments: ALL 2^(terms x positions) "
+    "for the ODE loss in both tiers (2^9, 2^6); in the thorough tier also ALL for the stationary loss (2^12, 2^8), "
+    "for one non-stationary problem (2^15) and one SystemLossODE problem (2^15) and their 2-position variants "
+    "(2^10); a seeded random subset (quick 200-400, thorough 4000-5000) plus all-true, all-false, every single-pair "
+    "flip of both and every single-term selection for the other problems (vector-valued equation parameters, "
+    "SystemLossPDE with 2^21 assignments, and every PDE / system problem of the quick tier) -- EXHAUSTIVE is "
+    "therefore false in both tiers.  Plus, per case: every from_str combination of {'nn_params','eq_params','both',"
+    "omitted} per term (single losses; seeded combinations for the per-unknown keys of systems), seeded mixed "
+    "string/tree/omitted specifications, the fully default construction (derivative_keys=None, params=...), unknown "
+    "strings (rejection), and user-path runs (python booleans in a loss built outside; eager jax.grad, and jax.jit "
+    "closed over the loss).  Observed per specification: booleans read back from the constructed object, value "
+    "and gradient (jax.value_and_grad of evaluate for the total as jinns.solve does; for each returned term the "
+    "pull-back of its unit cotangent = jax.grad of `lambda p: loss.evaluate(p, batch)[1][name]`, literally jax.grad "
+    "on the user paths) w.r.t. every group, as exact rationals.  Set-up: per-(term, group) gradients under the "
+    "all-true specification (systems: per-unknown terms isolated by indicator loss weights; the ParamsDict mask of "
+    "a system's dynamic term has no public setter and is installed with eqx.tree_at, its default is observed from "
+    "the constructor), compared with the exact gradient obtained from the implementation's own term VALUES by a "
+    "7-node exact differentiation stencil (terms are polynomials of degree <= 6 in each parameter) and, for the "
+    "ODE loss, with the gradient of the exact polynomial P.  non-trivial = every (term, group-of-its-view) all-true "
+    "gradient is non-zero and the case contains specifications with different read-back masks; distinct = "
+    "distinct case dicts")
 ASSUMPTIONS = [
     "JAX AD contract: the differential of each loss term is linear in the tangent; stop_gradient is the identity "
     "on values and zero on tangents (the model is parameterised by the per-term differential tables measured on "
@@ -310,20 +318,22 @@ def gen_cases(rng, tier):
         cases.append(make_case(rng, "sys_ode", {"a": 0, "b": 0}, {"mode": "random", "n": 300, "seed": rng.randrange(1 << 30)}, tier))
         cases.append(make_case(rng, "sys_pde", {"a": 0, "b": 0}, {"mode": "random", "n": 200, "seed": rng.randrange(1 << 30)}, tier, user_paths=False))
     else:
-        for eq in ({"a": 0, "b": 0}, {"a": 0, "b": 2}, {"a": 2, "b": 0}, {"a": 0}):
-            for _ in range(2):
-                cases.append(make_case(rng, "ode", eq, {"mode": "all"}, tier))
+        rnd = lambda n: {"mode": "random", "n": n, "seed": rng.randrange(1 << 30)}
+        # the two 2^15 enumerations first (longest cases first in the worker pool)
+        cases.append(make_case(rng, "sys_ode", {"a": 0, "b": 0}, {"mode": "all"}, tier))
+        cases.append(make_case(rng, "nonstatio", {"a": 0, "b": 0}, {"mode": "all"}, tier))
+        cases.append(make_case(rng, "sys_ode", {"a": 0, "b": 2}, rnd(4000), tier))
+        cases.append(make_case(rng, "nonstatio", {"a": 0, "b": 2}, rnd(5000), tier))
+        for eq in ({"a": 0, "b": 0}, {"a": 0}):
+            cases.append(make_case(rng, "sys_pde", eq, rnd(4000), tier))
         for eq in ({"a": 0, "b": 0}, {"a": 0, "b": 2}):
             cases.append(make_case(rng, "statio", eq, {"mode": "all"}, tier))
         cases.append(make_case(rng, "statio", {"a": 0}, {"mode": "all"}, tier))
-        for eq in ({"a": 0, "b": 0}, {"a": 0, "b": 2}):
-            cases.append(make_case(rng, "nonstatio", eq, {"mode": "random", "n": 6000, "seed": rng.randrange(1 << 30)}, tier))
         cases.append(make_case(rng, "nonstatio", {"a": 0}, {"mode": "all"}, tier))
-        for eq in ({"a": 0, "b": 0}, {"a": 0, "b": 2}):
-            cases.append(make_case(rng, "sys_ode", eq, {"mode": "random", "n": 5000, "seed": rng.randrange(1 << 30)}, tier))
         cases.append(make_case(rng, "sys_ode", {"a": 0}, {"mode": "all"}, tier))
-        for eq in ({"a": 0, "b": 0}, {"a": 0}):
-            cases.append(make_case(rng, "sys_pde", eq, {"mode": "random", "n": 4000, "seed": rng.randrange(1 << 30)}, tier))
+        for eq in ({"a": 0, "b": 0}, {"a": 0, "b": 2}, {"a": 2, "b": 0}, {"a": 0}):
+            for _ in range(2):
+                cases.append(make_case(rng, "ode", eq, {"mode": "all"}, tier))
     return cases
 
 
